@@ -186,6 +186,39 @@ STMT_RULES = {
         bad=f"{L}match col:\n    Color.Red => print(1)\n    Color.Green => print(2){R}",
         good="match col:\n    Color.Red => print(1)\n    Color.Green => print(2)\n    Color.Blue => print(3)",
     ),
+    # block scope (scopes_and_name_resolution.md): a name bound inside a block / arm / comprehension / closure is unknown outside it
+    "scope_if_body_leak": dict(bad=f"if flag:\n    inner1 = 1\nlet z1 = {L}inner1{R}", good="if flag:\n    inner1 = 1\nlet z1 = n"),
+    "scope_else_body_leak": dict(bad=f"if flag:\n    pass\nelse:\n    inner2 = 1\nlet z2 = {L}inner2{R}", good="if flag:\n    pass\nelse:\n    inner2 = 1\nlet z2 = n"),
+    "scope_elif_body_leak": dict(bad=f"if flag:\n    pass\nelif n > 3:\n    inner3 = 1\nlet z3 = {L}inner3{R}", good="if flag:\n    pass\nelif n > 3:\n    inner3 = 1\nlet z3 = n"),
+    "scope_while_body_leak": dict(bad=f"while flag:\n    inner4 = 1\n    break\nlet z4 = {L}inner4{R}", good="while flag:\n    inner4 = 1\n    break\nlet z4 = n"),
+    "scope_for_body_leak": dict(bad=f"for it5 in xs:\n    inner5 = 1\nlet z5 = {L}inner5{R}", good="for it5 in xs:\n    inner5 = 1\nlet z5 = n"),
+    "scope_for_var_leak": dict(bad=f"for it6 in xs:\n    pass\nlet z6 = {L}it6{R}", good="for it6 in xs:\n    pass\nlet z6 = n"),
+    "scope_comprehension_var_leak": dict(bad=f"let c7 = [it7 for it7 in xs]\nlet z7 = {L}it7{R}", good="let c7 = [it7 for it7 in xs]\nlet z7 = n"),
+    "scope_closure_param_leak": dict(bad=f"let f8 = (a8) => a8 + 1\nlet y8 = f8(1)\nlet z8 = {L}a8{R}", good="let f8 = (a8) => a8 + 1\nlet y8 = f8(1)\nlet z8 = n"),
+    "scope_match_binding_leak_after": dict(
+        bad=f"match opt:\n    case Some(b9):\n        pass\n    case None:\n        pass\nlet z9 = {L}b9{R}",
+        good="match opt:\n    case Some(b9):\n        pass\n    case None:\n        pass\nlet z9 = n",
+    ),
+    "scope_match_binding_leak_next_arm": dict(
+        bad=f"match res:\n    case Ok(b10):\n        pass\n    case Err(e10):\n        let z10 = {L}b10{R}",
+        good="match res:\n    case Ok(b10):\n        pass\n    case Err(e10):\n        let z10 = n",
+    ),
+    "scope_match_arm_body_leak": dict(
+        bad=f"match n:\n    case 0:\n        inner11 = 1\n    case _:\n        pass\nlet z11 = {L}inner11{R}",
+        good="match n:\n    case 0:\n        inner11 = 1\n    case _:\n        pass\nlet z11 = n",
+    ),
+    "scope_match_catchall_binding_leak": dict(
+        bad=f"match n:\n    case 0:\n        pass\n    case other12:\n        pass\nlet z12 = {L}other12{R}",
+        good="match n:\n    case 0:\n        pass\n    case other12:\n        pass\nlet z12 = n",
+    ),
+    "scope_arrow_binding_leak": dict(
+        bad=f"match opt:\n    Some(b13) => print(b13)\n    None => print(0)\nlet z13 = {L}b13{R}",
+        good="match opt:\n    Some(b13) => print(b13)\n    None => print(0)\nlet z13 = n",
+    ),
+    "scope_nested_if_leak_to_outer_block": dict(
+        bad=f"if flag:\n    if n > 1:\n        inner14 = 1\n    let z14 = {L}inner14{R}", good="if flag:\n    if n > 1:\n        inner14 = 1\n    let z14 = n"
+    ),
+    "scope_other_function_local": dict(bad=f"let z15 = {L}a{R}", good="let z15 = n"),
     "ctor_missing_field": dict(bad=f"let z = {L}Point(x=1){R}", good="let z = Point(x=1, y=2)"),
     "ctor_duplicate_field": dict(bad=f"let z = {L}Point(x=1, x=2, y=3){R}", good="let z = Point(x=1, y=2)"),
     "ctor_unknown_field": dict(bad=f"let z = {L}Point(x=1, y=2, zz=3){R}", good="let z = Point(x=1, y=2)"),
@@ -372,7 +405,7 @@ def run(tier):
     cov = {
         "evaluations": len(cases) * 2,
         "distinct_nontrivial": len(ok_sigs),
-        "rule": "rule x context: each rule-breaking construct (unknown name; wrong type in annotated let / reassignment / return / argument / field assignment / constructor "
+        "rule": "rule x context: each rule-breaking construct (unknown name; use of a name outside the block / arm / comprehension / closure / function that binds it (15 scope rules); wrong type in annotated let / reassignment / return / argument / field assignment / constructor "
         "field / const / default; reassigning, compound-assigning or field-assigning an immutable binding incl. params and outer bindings; `?` on non-Result / incompatible error; "
         "non-exhaustive match over enum/Option/Result incl. foreign-constructor, duplicate and guard-only arms; constructor with missing/duplicate/unknown field; trait adoption "
         "without method / @requires field) in every statement, function and expression context (level 2), nested two deep and after another construct (level 3); "
